@@ -8,7 +8,7 @@ from hypothesis import strategies as st
 
 from .. import gen
 from ..core import SubCheck, Violation
-from ..oracle import lib, np_rows, np_flat, observe, norm, same, diff_obs, expect_refused, jsonable
+from ..oracle import LAYOUTS, layout, lib, np_rows, np_flat, observe, norm, same, diff_obs, expect_refused, jsonable
 
 RULE = ("Cases = (row-length vector from the empty-row-placement templates, element dtype among bool/int8..uint64/"
         "float32/float64, element content incl. dtype extremes / nan / inf, construction route); every read-back "
@@ -131,21 +131,6 @@ def build_case(draw, tier):
 
 # ---------------------------------------------------------------- rectangular conversion, equals
 
-def layout(mat, how):
-    """the same matrix (same values, same shape) in another memory layout"""
-    if how == "F":
-        return np.asfortranarray(mat)
-    if how == "T":                      # transposed view of the transposed copy
-        return np.ascontiguousarray(mat.T).T
-    if how == "strided":                # every second row / column of a larger buffer
-        big = np.zeros((2 * mat.shape[0] + 1, 2 * mat.shape[1] + 1), dtype=mat.dtype)
-        big[1::2, 1::2] = mat
-        return big[1::2, 1::2]
-    if how == "reversed":
-        return np.ascontiguousarray(mat[::-1, ::-1])[::-1, ::-1]
-    return mat
-
-
 def obs_rect(case):
     from npstructures import RaggedArray
 
@@ -179,7 +164,7 @@ def rect_case(draw, tier):
     c = draw(st.integers(0, 6))
     dt = draw(st.sampled_from(gen.ALL_DT))
     return {"r": r, "c": c, "dt": dt, "vals": draw(gen.flat_values(dt, r * c)),
-            "layout": draw(st.sampled_from(["C", "C", "F", "T", "strided", "reversed"]))}
+            "layout": draw(st.sampled_from(LAYOUTS))}
 
 
 def obs_to_numpy(case):
@@ -270,6 +255,24 @@ def mismatch_case(draw, tier):
 
 # ---------------------------------------------------------------- geometry object
 
+def query(case, tot):
+    """a vector of flat positions: any order, repeats; often a permutation of all positions (ends kept or not)"""
+    kind, a, b, extra = case.get("q", [0, 0, 0, []])
+    base = list(range(tot))
+    a, b = a % tot, b % tot
+    if kind == 0:
+        return [x % tot for x in extra]
+    if kind == 1:
+        base[a], base[b] = base[b], base[a]
+    elif kind == 2 and tot > 2:
+        base = [base[0]] + base[1:-1][::-1] + [base[-1]]
+    elif kind == 3:
+        base[b] = base[a]
+    else:
+        base = base[a:] + base[:a]
+    return base
+
+
 def obs_geometry(case):
     from npstructures import RaggedShape, RaggedArray
 
@@ -289,6 +292,10 @@ def obs_geometry(case):
             out["unravel"] = [[int(x) for x in r], [int(x) for x in c]]
             r1, c1 = sh.unravel_multi_index(case["k"] % tot)
             out["unravel_one"] = [int(r1), int(c1)]
+            q = query(case, tot)
+            rq, cq = sh.unravel_multi_index(np.array(q, dtype=np.int64))
+            out["unravel_query"] = [[int(x) for x in rq], [int(x) for x in cq]]
+            out["ravel_query"] = [int(x) for x in sh.ravel_multi_index((ii[q], jj[q]))]
         out["index_array"] = [int(x) for x in sh.index_array()]
         d = sh.to_dict()
         sh2 = RaggedShape.from_dict({k: np.array(v) for k, v in d.items()})
@@ -317,6 +324,9 @@ def body_geometry(case, ctx):
         exp["ravel_one"] = case["k"] % len(cells)
         exp["unravel"] = [[i for i, _ in cells], [j for _, j in cells]]
         exp["unravel_one"] = list(cells[case["k"] % tot])
+        q = query(case, tot)
+        exp["unravel_query"] = [[cells[x][0] for x in q], [cells[x][1] for x in q]]
+        exp["ravel_query"] = list(q)
     exp["index_array"] = [i for i, _ in cells]
     exp["dict-roundtrip"] = [starts, list(lens)]
     exp["offsets-roundtrip"] = [starts, list(lens)]
@@ -331,7 +341,8 @@ def body_geometry(case, ctx):
 
 @st.composite
 def geometry_case(draw, tier):
-    return {"lens": draw(gen.lengths(tier)), "via": draw(st.sampled_from(["shape", "array"])), "k": draw(st.integers(0, 10000))}
+    return {"lens": draw(gen.lengths(tier)), "via": draw(st.sampled_from(["shape", "array"])), "k": draw(st.integers(0, 10000)),
+            "q": [draw(st.integers(0, 4)), draw(st.integers(0, 1000)), draw(st.integers(0, 1000)), draw(st.lists(st.integers(0, 1000), max_size=8))]}
 
 
 # ---------------------------------------------------------------- save / load, equals
